@@ -16,6 +16,9 @@ namespace SamlVerif.XmlText
 
 inductive Mode where
   | normal | canonText | canonAttr
+  /-- etree's normal mode followed by the library's `crEscaper` (util.go): every raw carriage return
+      of the output becomes `&#xD;` — how this library writes attribute values -/
+  | attrCR
   deriving DecidableEq, Repr
 
 /-- the `Char` production of XML 1.0 (`isInCharacterRange` in both libraries) -/
@@ -28,7 +31,7 @@ def escChar (m : Mode) (c : Char) : List Char :=
   if c = '&' then ['&', 'a', 'm', 'p', ';']
   else if c = '<' then ['&', 'l', 't', ';']
   else if c = '>' then (if m = .canonAttr then [c] else ['&', 'g', 't', ';'])
-  else if c = '\'' then (if m = .normal then ['&', 'a', 'p', 'o', 's', ';'] else [c])
+  else if c = '\'' then (if m = .normal ∨ m = .attrCR then ['&', 'a', 'p', 'o', 's', ';'] else [c])
   else if c = '"' then (if m = .canonText then [c] else ['&', 'q', 'u', 'o', 't', ';'])
   else if c = '\t' then (if m = .canonAttr then ['&', '#', 'x', '9', ';'] else [c])
   else if c = '\n' then (if m = .canonAttr then ['&', '#', 'x', 'A', ';'] else [c])
@@ -36,6 +39,9 @@ def escChar (m : Mode) (c : Char) : List Char :=
   else if inRange c then [c] else ['�']
 
 def escape (m : Mode) (s : List Char) : List Char := s.flatMap (escChar m)
+
+/-- `crEscaper.Write`: raw carriage returns of the serialised bytes become character references -/
+def crReplace (out : List Char) : List Char := out.flatMap fun c => if c = '\r' then ['&', '#', 'x', 'D', ';'] else [c]
 
 /-! ### decoding -/
 
